@@ -10,7 +10,7 @@
   collector's real balance).  Only property theorems here; lemmas are in Lemmas/Weekly*.lean and
   Lemmas/Fees*.lean.
 -/
-import MxModel.Lemmas.FeesBal
+import MxModel.Lemmas.FeesLedger
 
 namespace Mx.C10
 
@@ -157,15 +157,51 @@ theorem week_sum_bound_current (epoch lockEpochs : Nat) (known : List Tok)
   apply usum_share_le_total
   exact Nat.le_of_eq (global_energy_inv epoch lockEpochs known contracts whitelist ops).symm
 
-/-- FULL per-week statement over histories (not proved in this form — see `week_sum_bound`,
-    `week_sum_bound_current`, `claim_once`, and the harness oracle `week_sum_bound` that checks
-    it on the real contract): the running sum of payments for a week never exceeds what was
-    frozen for it. -/
-def week_sum_bound_full : Prop :=
-  ∀ (epoch lockEpochs : Nat) (known : List Tok) (contracts whitelist : List Nat) (ops : List Op)
-    (w : Nat) (t : Tok),
+/-- the energy user `u` can still be paid with for week `w`: its recorded energy decayed to `w`
+    if its progress has not passed `w` yet, else 0 -/
+def claimableEnergy (g : Weekly.St) (u w : Nat) : Nat := eForP g.progress u w
+
+/-- **energy bound for EVERY week.**  After any history and for every week `w` — running,
+    completed, or long gone — either no total was recorded for `w` (then nothing is paid for it),
+    or the recorded energies, decayed to `w`, of all the users that can still claim `w` sum to at
+    most `totalEnergyForWeek(w)`: the hypothesis of `week_sum_bound` always holds. -/
+theorem energy_sum_bound (epoch lockEpochs : Nat) (known : List Tok) (contracts whitelist : List Nat)
+    (ops : List Op) (w : Nat) :
+    let s := run (init epoch lockEpochs known contracts whitelist) ops
+    s.w.totalEnergy w = 0 ∨
+      usum s.w.users (fun u => claimableEnergy s.w u w) ≤ s.w.totalEnergy w :=
+  (run_WInv ops (init_WInv epoch lockEpochs known contracts whitelist)).2 w
+
+/-- **week sum bound for every week.**  After any history, for every week `w` and every amount
+    `total`: the shares `⌊total · e_u(w) / E(w)⌋` of all users that can still claim week `w`
+    sum to at most `total`.  (Together with `claim_once` — a claimer is paid for `w` once and
+    then drops out of this sum — no week can pay out more than its total.) -/
+theorem week_sum_bound_all_weeks (epoch lockEpochs : Nat) (known : List Tok)
+    (contracts whitelist : List Nat) (ops : List Op) (w total : Nat) :
+    let s := run (init epoch lockEpochs known contracts whitelist) ops
+    usum s.w.users (fun u => share total (claimableEnergy s.w u w) (s.w.totalEnergy w)) ≤ total :=
+  (run_WInv ops (init_WInv epoch lockEpochs known contracts whitelist)).2.shares_le w total
+
+/-- **never more than collected.**  After ANY history, for every week `w` and token `t`, the
+    running sum of all payments made for week `w` in token `t` is at most what was frozen for that
+    week (`collected`, the content of `totalRewardsForWeek(w)` when it was first claimed — which is
+    what had been deposited for `w`).  In fact the stronger ledger relation holds: payments so far
+    plus the shares of everybody who can still claim the week stay within the frozen total. -/
+theorem week_sum_bound_history (epoch lockEpochs : Nat) (known : List Tok)
+    (contracts whitelist : List Nat) (ops : List Op) (w : Nat) (t : Tok) :
+    let s := run (init epoch lockEpochs known contracts whitelist) ops
+    s.a.paid w t + usum s.w.users
+        (fun u => share (s.a.collected w t) (claimableEnergy s.w u w) (s.w.totalEnergy w)) ≤
+      s.a.collected w t :=
+  (run_AllInv ops (init_AllInv epoch lockEpochs known contracts whitelist)).l.ledger w t
+
+/-- corollary in the property's words: the sum paid out for a week never exceeds what was
+    collected for it -/
+theorem paid_le_collected (epoch lockEpochs : Nat) (known : List Tok)
+    (contracts whitelist : List Nat) (ops : List Op) (w : Nat) (t : Tok) :
     (run (init epoch lockEpochs known contracts whitelist) ops).a.paid w t ≤
-      (run (init epoch lockEpochs known contracts whitelist) ops).a.collected w t
+      (run (init epoch lockEpochs known contracts whitelist) ops).a.collected w t :=
+  (run_AllInv ops (init_AllInv epoch lockEpochs known contracts whitelist)).l.paid_le w t
 
 /-! ### the collector can pay -/
 
@@ -179,17 +215,18 @@ theorem collector_conservation (epoch lockEpochs : Nat) (known : List Tok)
   intro s hK
   exact (run_BalInv ops (init_BalInv epoch lockEpochs known contracts whitelist)).bal t ht K hK
 
-/-- **collector solvent.**  Whenever the paid ledger is within the frozen totals (the week sum
-    bound), the balance of every non-locked token covers everything still unclaimed: the fees
-    accumulating for the running weeks plus the unpaid remainder of every frozen week. -/
+/-- **collector solvent.**  After ANY history, the balance of every non-locked token covers
+    everything still unclaimed: the fees accumulating for the running weeks plus the unpaid
+    remainder of every frozen week (it is in fact equal to it, see `collector_conservation`). -/
 theorem collector_solvent (epoch lockEpochs : Nat) (known : List Tok)
     (contracts whitelist : List Nat) (ops : List Op) (t : Tok) (ht : t ≠ lockedTok) (K : Nat) :
     let s := run (init epoch lockEpochs known contracts whitelist) ops
-    curWeek s < K → (∀ w, s.a.paid w t ≤ s.a.collected w t) →
+    curWeek s < K →
     usum (List.range K) (fun w => s.a.accumulated w t + (s.a.collected w t - s.a.paid w t)) ≤ s.bal t := by
-  intro s hK hle
+  intro s hK
   have h := collector_conservation epoch lockEpochs known contracts whitelist ops t ht K hK
-  exact unclaimed_le_bal s t K hle h
+  exact unclaimed_le_bal s t K
+    (fun w => paid_le_collected epoch lockEpochs known contracts whitelist ops w t) h
 
 /-- a failed transaction leaves the state untouched (atomicity as modelled) -/
 theorem failed_tx_no_effect (s : Fees.St) (op : Op) (h : step s op = none) : run s [op] = s := by
